@@ -155,7 +155,11 @@ func c15Run(f failer, cfg world.Cfg, p c15Params, next func(i int, mr *hist.MRun
 			mutAttempted[s.Op] = true
 			dirHandle := false
 			if sl := ro.Slots[s.Slot]; sl != nil && (s.Op == "write" || s.Op == "writeat" || s.Op == "writestring" || s.Op == "truncate") {
-				if n := frozen.Get(sl.Path); n != nil && n.Kind == "dir" {
+				hp := hist_clean(sl.Path)
+				if tgt, ok := mr.Links[hp]; ok {
+					hp = tgt // the handle was opened through a link to a directory
+				}
+				if n := frozen.Get(hp); n != nil && n.Kind == "dir" {
 					dirHandle = true
 				}
 			}
@@ -254,7 +258,21 @@ func romrSlot(romr *hist.MRunner, slot int, m *model.FS, p string) {
 	romr.Slots[slot] = model.NewHandle(m, p, true, true)
 }
 
+func isRootName(n string) bool { return n == "/" || n == "." || n == "" }
+
 func compareReads(s hist.Step, a, b hist.Res) string {
+	switch s.Op {
+	case "open", "stat", "fstat":
+		// (the root calls itself "/" under a live index and "." under a rebuilt one: DESIGN §6.1)
+		// and a rebuilt index spells names relative to the root where the live one spells them absolute
+		an, bn := a.Name, b.Name
+		if s.Op == "open" {
+			an, bn = observe.Clean(an), observe.Clean(bn)
+		}
+		if an != bn && !(isRootName(a.Name) && isRootName(b.Name)) {
+			return fmt.Sprintf("the entry calls itself %q vs %q", a.Name, b.Name)
+		}
+	}
 	switch s.Op {
 	case "read", "readat":
 		if a.N != b.N || !bytes.Equal(a.Data, b.Data) || a.EOF != b.EOF {
@@ -288,6 +306,16 @@ var c15Weights = map[string]int{
 	"mkdir": 3, "mkdirall": 2, "remove": 3, "removeall": 3, "rename": 3, "chmod": 2, "chown": 2, "chtimes": 2, "symlink": 2, "stat": 3, "list": 3,
 }
 
+// the populating phase is an ordinary history plus symbolic links (a read-only instance
+// resolves them like a writable one)
+var c15PopulateWeights = func() map[string]int {
+	m := map[string]int{"symlink": 4}
+	for k, v := range fsWeights {
+		m[k] = v
+	}
+	return m
+}()
+
 func c15Avoid(s hist.Step, mr *hist.MRunner) string {
 	// interpretation: the drive stays locked while a read stream is half consumed (finding
 	// F-11); the read-only phase issues no tape writes, so nothing needs steering here.
@@ -320,7 +348,7 @@ func TestC15(t *testing.T) {
 		if p.MissingIndex && (cfg.Encryption != "" || cfg.Signature != "") && rapid.IntRange(0, 2).Draw(t, "wrongkey") == 0 {
 			p.WrongKey = true
 		}
-		gp := hist.NewGen(t, fsWeights, hist.Universe, 4, cfg.RecordSize).WithSuffixNames(t, cfg)
+		gp := hist.NewGen(t, c15PopulateWeights, hist.Universe, 4, cfg.RecordSize).WithSuffixNames(t, cfg)
 		gp.Avoid = f33Avoid(cfg, avoidFor("C15"))
 		gr := hist.NewGen(t, c15Weights, hist.Universe, 4, cfg.RecordSize).WithSuffixNames(t, cfg)
 		gr.Comps = gp.Comps
